@@ -258,7 +258,10 @@ def _bkg_new(cfg, dseed):
 
 def _bkg_ref(cfg, dseed, name):
     def make():
-        return getattr(_bkg_new(cfg, dseed), name)
+        try:
+            return ('ok', getattr(_bkg_new(cfg, dseed), name))
+        except Exception as e:  # noqa: BLE001
+            return ('exc', _exc(e))
     return _memo(('bkg', _ck(cfg), dseed, name), make)
 
 
@@ -268,12 +271,18 @@ def eval_bkg(case):
     obj = _bkg_new(cfg, dseed)
     got = []
     for i, name in enumerate(list(seq) + [seq[0]]):
-        ref = _bkg_ref(cfg, dseed, name)
+        kind, ref = _bkg_ref(cfg, dseed, name)
         try:
             val = getattr(obj, name)
         except Exception as e:  # noqa: BLE001
-            fails.append((f'background2d/read-order-raises/{name}',
-                          f'Background2D({cfg}).{name} after reading {list(seq[:i])} raises {_exc(e)}'))
+            if kind != 'exc':       # (a fresh object raising as well is not a history effect)
+                fails.append((f'background2d/read-order-raises/{name}',
+                              f'Background2D({cfg}).{name} after reading {list(seq[:i])} raises {_exc(e)}'))
+            continue
+        if kind == 'exc':
+            fails.append((f'background2d/read-order/{name}',
+                          f'Background2D({cfg}).{name} after reading {list(seq[:i])} returns a value; a fresh '
+                          f'object raises {ref}'))
             continue
         r = cmp(val, ref, 0.0, name)
         if r:
@@ -282,7 +291,7 @@ def eval_bkg(case):
                           f'object: {r}'))
         got.append((name, val))
     for name, val in got:
-        r = cmp(val, _bkg_ref(cfg, dseed, name), 0.0, name)
+        r = cmp(val, _bkg_ref(cfg, dseed, name)[1], 0.0, name)
         if r:
             fails.append((f'background2d/earlier-result-mutated/{name}',
                           f'Background2D({cfg}): the array returned by .{name} was changed by later reads '
@@ -327,7 +336,7 @@ def _bkg_cases(ctx, dseed):
             main = main and cfg['masks'] in ('none', 'both')
         if thorough:
             seqs = list(perm4) if zoom else perm4_maps + perm3
-            seqs += triples if main else pairs
+            seqs += triples if main and cfg['shape'] == 'pad' else pairs
         else:
             seqs = perm4 + pairs if main else list(perm4_maps)
         for seq in seqs:
